@@ -143,11 +143,10 @@ theorem addAll_congr {xs ys : List Access} (h : ∀ x, x ∈ xs ↔ x ∈ ys) (s
   ⟨fun a => by rw [addAll_addrs, addAll_addrs, contains_congr h],
    fun a k => by rw [addAll_slots, addAll_slots, contains_congr h]⟩
 
-/-- the keys the code warms are, as a set, the EIP lists plus — from Prague — the block-hash storage address -/
+/-- the keys the code warms are, as a set, the EIP lists -/
 theorem mem_codeKeys (e : TxEnv) (hB : e.spec ≥ Spec.AccessSets.BERLIN) (x : Access) :
     x ∈ codeKeys e (if e.spec ≥ Spec.AccessSets.PRAGUE then e.targetDelegate else none) ↔
-    x ∈ Spec.AccessSets.eipPrewarm e ++
-      (if e.spec ≥ Spec.AccessSets.PRAGUE then [Access.addr BLOCKHASH_STORAGE_ADDRESS] else []) := by
+    x ∈ Spec.AccessSets.eipPrewarm e := by
   have hnb : ¬ e.spec < Spec.AccessSets.BERLIN := Nat.not_lt.2 hB
   simp only [codeKeys, codePreloaded, prewarmPrefix, Spec.AccessSets.eipPrewarm, hnb, if_false,
     Spec.AccessSets.accessListKeys]
@@ -156,16 +155,11 @@ theorem mem_codeKeys (e : TxEnv) (hB : e.spec ≥ Spec.AccessSets.BERLIN) (x : A
       List.mem_map, Function.comp_def]
   all_goals grind
 
-
-/-- the sets the code has built when the first frame starts = the EIP sets, plus from Prague the block-hash
-storage address -/
+/-- the sets the code has built when the first frame starts = the EIP sets -/
 theorem codeKeys_sets (e : TxEnv) (hB : e.spec ≥ Spec.AccessSets.BERLIN) :
     SetsEq (Sets.empty.addAll (codeKeys e (if e.spec ≥ Spec.AccessSets.PRAGUE then e.targetDelegate else none)))
-      ((Spec.AccessSets.txInit e).cur.addAll
-        (if e.spec ≥ Spec.AccessSets.PRAGUE then [Access.addr BLOCKHASH_STORAGE_ADDRESS] else [])) := by
-  show SetsEq _ ((Sets.empty.addAll (Spec.AccessSets.eipPrewarm e)).addAll _)
-  rw [addAll_append]
-  exact addAll_congr (mem_codeKeys e hB) _
+      (Spec.AccessSets.txInit e).cur :=
+  addAll_congr (mem_codeKeys e hB) _
 
 theorem addAll_nil (s : Sets) : s.addAll [] = s := rfl
 
